@@ -88,6 +88,7 @@ REGIONS = {
     'cotp-reference-order': (('COTPConnectionRequest', 'COTPConnectionConfirm'),
                              lambda o: ops.as_int(o.f['src_ref']) != ops.as_int(o.f['dst_ref']), ('K6',)),
     'mysql-handshake-v10-domain': (('MySQLHandshakeV10',), lambda o: True, ('K3',)),
+    'hello-retry-request-type-6': (('TlsHandshakeHelloRetryRequest',), lambda o: True, ('K6',)),
     'ssh-cert-option-data-not-nested': (('SshCertExtensionForceCommand', 'SshCertExtensionSourceAddress'), lambda o: True, ('K6',)),
     'openvpn-tcp-wrapper-no-eq': (('OpenVpnPacketWrapperTcp',), lambda o: True, ('K3',)),
 }
@@ -221,6 +222,16 @@ def w_cert_option():
                 observed='%s; %r' % (got.hex(), back), expected='%s; %r' % (openssh.hex(), '/bin/true'))
 
 
+def w_hrr():
+    from cryptoparser.tls.subprotocol import TlsHandshakeHelloRetryRequest
+    from cryptodatahub.tls.algorithm import TlsCipherSuite
+    wire = bytes(TlsHandshakeHelloRetryRequest(cipher_suite=TlsCipherSuite.TLS_AES_128_GCM_SHA256).compose())
+    if wire[0] == 2:
+        return dict(reproduced=False, observed='msg_type server_hello(2)')
+    return dict(reproduced=True, call='TlsHandshakeHelloRetryRequest(cipher_suite=TLS_AES_128_GCM_SHA256).compose()[0]',
+                observed='0x%02x' % wire[0], expected='0x02 (RFC 8446 4.1.4: a HelloRetryRequest is a ServerHello with the special Random)')
+
+
 def w_cotp():
     from cryptoparser.tls.rdp import COTPConnectionRequest
     wire = bytes(COTPConnectionRequest(src_ref=0x0102, dst_ref=0x0304, user_data=b'').compose())
@@ -235,6 +246,7 @@ WITNESSES = {
     'datetime-awareness': w_datetime_awareness,
     'dns-name-empty-label': w_empty_label,
     'cotp-reference-order': w_cotp,
+    'hello-retry-request-type-6': w_hrr,
     'ssh-cert-option-data-not-nested': w_cert_option,
     'tpkt-version-not-3': w_tpkt,
     'tpkt-version-not-3/prefix': w_tpkt_prefix,
